@@ -12,6 +12,9 @@ def run(R, tier, seed, only=None):
     if only in (None, "paren"):
         import fmtparen
         fmtparen.run(R, tier, seed, drv)
+    if only in (None, "writer"):
+        import fmtwriter
+        fmtwriter.run(R, tier, seed, drv)
     R.cov["states"] = max(1, R.cov.get("states", 0))
     R.cov["transitions"] = max(1, R.cov.get("transitions", 0))
     R.cov["traces_validated_against_impl"] = R.cov["queries"].get("sat", 0)
